@@ -276,16 +276,14 @@ def _is_pseudo(r) -> bool:
 
 def _crash_class(d) -> str:
     text = str(d[3])
-    if re.search(r"[Pp]ickl|FrozenInstanceError|BrokenProcessPool|concurrent\.futures", text):
-        # which object could not travel is the mechanism: one key per exception class and kind of object
-        m = re.search(r"((?:\w+\.)*(\w+))\s*:\s*(.*)", text)
-        exc, detail = (m.group(2), m.group(3)) if m else ("?", "")
-        if re.search(r"Can't pickle ~\w+", detail):
-            detail = "a TypeVar that is not a module attribute"
-        else:
-            detail = re.sub(r"0x[0-9a-f]+", "0xADDR", detail)
-            detail = re.sub(r"'[^']*'", "N", detail)[:60]
-        return f"parallel worker result cannot be transferred between processes: {exc}: {detail}"
+    if "FrozenInstanceError" in text:
+        # the failures themselves (Error is a frozen dataclass with __slots__) could not be unpickled in the parent
+        return "parallel worker's failures cannot be unpickled: FrozenInstanceError"
+    if re.search(r"[Pp]ickl|BrokenProcessPool|concurrent\.futures|__init__\(\) takes \d+ positional arguments", text):
+        # One mechanism, many faces: check_file_in_worker returns the worker's whole ClassAttributeChecker - its
+        # visitors (NameCheckVisitor.__reduce_ex__ no longer matches __init__), and Values holding run-time TypeVars,
+        # functions, descriptors ... - through pickle.  Which object trips first depends on the files.
+        return "parallel worker's attribute-checker state cannot be transferred between processes"
     m = re.match(r"\s*((?:\w+\.)*\w+)", text)
     return (m.group(1) if m else "?")[:60]
 
